@@ -81,6 +81,14 @@ def kind_stdout(kind, env=1):
 
 def render_module(kinds, rot=0, layout='google'):
     out = [HEADER]
+    if layout == 'shared':
+        # every doctest of the module is an example block of ONE docstring: g:0, g:1, ... (google / auto style)
+        body = ['Summary of g', '']
+        for i, k in enumerate(kinds):
+            body += [['Example:', 'Doctest:', 'Example::', 'Examples:'][(rot + i) % 4]] + ['    ' + l for l in kind_text(k, i, rot)] + ['']
+        doc = '\n'.join('    ' + l if l else '' for l in body)
+        out.append("\n\ndef g():\n    r'''\n%s\n    '''\n    return 0\n" % doc)
+        return ''.join(out)
     for i, k in enumerate(kinds):
         lines = kind_text(k, i, rot)
         if layout == 'google':
